@@ -3,7 +3,7 @@ from __future__ import annotations
 
 from .. import observe, noisy, corpus, docmodel, workloads
 from ..common import h64, short
-from .base import rng, shards, apply_parse_monitors, cover_transitions
+from .base import rng, shards, apply_parse_monitors, cover_transitions, ReusedEnv
 
 ID = "C14"
 LEVEL = "exploration"
@@ -27,6 +27,7 @@ def plan(tier, seed):
     specs = [{"family": "pairs", "seed": seed, "n": 1, "states": list(range(s, 43, 4))} for s in range(4)]
     specs += shards("noisy", 5000 if q else 300000, 500 if q else 6000, seed)
     specs += shards("noisy_long", 600 if q else 30000, 150 if q else 3000, seed)
+    specs += shards("noisy_reused", 2000 if q else 100000, 500 if q else 5000, seed)
     specs += shards("noisy_tables", 2500 if q else 100000, 500 if q else 5000, seed)
     specs += shards("faulted", 3000 if q else 150000, 300 if q else 5000, seed)
     specs += [{"family": "corpus", "seed": seed, "n": 1}]
@@ -50,14 +51,14 @@ def enum_check(text, collect_errors, M, case, accepted):
                                  "got": short(envs, 300), "want": short(want, 300)}, case)
 
 
-def check_noisy(L, text, M, case, pair_index=None):
+def check_noisy(L, text, M, case, pair_index=None, env=None):
     M.case(h64(text))
     sim = noisy.simulate(L, False)
     sim_stop = noisy.simulate(L, True)
     if sim["errors"] and sim_stop["errors"] != sim["errors"][:1]:
         M.inconc("simulator inconsistent between modes on %s" % short(text, 120))
         return sim
-    o = observe.parse_observed(text, False)
+    o = env.parse(text, M) if env is not None else observe.parse_observed(text, False)
     M.count("sim_compared")
     M.hist("errors_per_document", len(sim["errors"]))
     for e in sim["errors"]:
@@ -129,13 +130,17 @@ def run_shard(spec, M):
     fam, seed = spec["family"], spec["seed"]
     if fam == "pairs":
         run_pairs(spec, M)
-    elif fam in ("noisy", "noisy_long", "noisy_tables"):
+    elif fam in ("noisy", "noisy_long", "noisy_tables", "noisy_reused"):
+        env = ReusedEnv(rng(seed, ID, "reuse", spec["shard"])) if fam == "noisy_reused" else None
         for i in range(spec["start"], spec["start"] + spec["n"]):
             r = rng(seed, ID, fam, i)
             L = noisy.gen_tables(r) if fam == "noisy_tables" else noisy.gen(r, 30 if fam == "noisy" else 90)
             nl = r.choice(["\n", "\n", "\r\n"])
             text = noisy.text_of(L, nl=nl, final=r.random() < 0.8 or noisy.POOL[L[-1][1]].text == "")
-            check_noisy(L, text, M, {"kind": "noisy", "L": L, "nl": nl, "text": text})
+            if env is not None:
+                check_noisy(L, text, M, {"kind": "shard", "spec": spec, "text": text}, env=env)
+            else:
+                check_noisy(L, text, M, {"kind": "noisy", "L": L, "nl": nl, "text": text})
             if i % 997 == 0:
                 M.sample({"text": short(text, 300)})
     elif fam == "faulted":
@@ -184,7 +189,9 @@ def check_generic(text, M, case):
 
 
 def replay(case, M):
-    if case["kind"] == "noisy":
+    if case["kind"] == "shard":
+        run_shard(case["spec"], M)
+    elif case["kind"] == "noisy":
         check_noisy([tuple(x) for x in case["L"]], case["text"], M, case)
     else:
         check_generic(case["text"], M, case)
